@@ -166,6 +166,9 @@ def c04(tier):
             for stale in ([0, 1000000000] if tier == "quick" else [0, 1, 1000000000]):
                 gen_core.wr_scenarios(S, fmt, ch, rate, ["s"] if stale else ["s", "f"], Ns, rng, stale=stale, splits=1 if tier == "quick" else 3, seeks=False,
                                       cfg={"stale": stale, "rate": rate})
+    # three channels, every caller type, one call above the 2048 item staging buffers; N = 10 k + 1 so that a lost frame shows
+    for fmt, ch in formats.writable(exe, chans=(3,), rate=RATE):
+        gen_core.wr_scenarios(S, fmt, ch, RATE, ["s", "i", "f", "d"], [701], rng, splits=0, seeks=False, cfg={"stale": 0, "rate": RATE})
     # byte order options: the re-opened file reports the same effective byte order (InfoMatches / EffOrder) and the same count
     for fmt, ch in _fmts_endian(exe, (1, 2)):
         gen_core.wr_scenarios(S, fmt, ch, RATE, ["s", "f"] if tier != "quick" else ["s"], [1, 33], rng, splits=0, seeks=False, cfg={"en": fmt >> 28, "stale": 0, "rate": RATE})
@@ -255,6 +258,8 @@ def c06(tier):
         Ts = [gen_core.type_for(fmt)] if tier == "quick" else list(dict.fromkeys([gen_core.type_for(fmt), "i", "f"]))
         for T in Ts:
             gen_core.seek_read_scenarios(S, fmt, ch, RATE, N, rng, steps=25 if tier == "quick" else 80, T=T)
+        if B > 1:          # a file that ends exactly on a block boundary
+            gen_core.seek_read_scenarios(S, fmt, ch, RATE, 2 * B, rng, steps=10 if tier == "quick" else 40, T=Ts[0])
     # TLC-generated histories (all seek/read sequences over the replay alphabet) on read handles
     depth = 3 if tier == "quick" else 4
     hists, gst = gen_core.gen_rw("R", 3, depth)
@@ -389,6 +394,10 @@ def c07(tier):
         for N in Ns:
             gen_env.c07_scenarios(S, fmt, ch, RATE, N, rng, nparts=8 if tier == "quick" else 14,
                                   Ts=None if tier == "quick" else list(dict.fromkeys([gen_core.type_for(fmt), "s", "f"])))
+    # three channels: one call above the staging buffers against small pieces, through every caller type
+    for fmt, ch in _fmts(exe, tier, (3,)):
+        if scen.major(fmt) != scen.SD2:
+            gen_env.c07_scenarios(S, fmt, ch, RATE, 800, rng, nparts=2, Ts=["s", "i", "f", "d"])
     # float / double encodings through every caller type with calls larger than the staging buffers (PEAK bookkeeping per chunk)
     for fmt, ch in _fmts(exe, tier, (1, 2) if tier == "quick" else (1, 2, 3)):
         if scen.sub(fmt) in (6, 7) and scen.major(fmt) != scen.SD2:
@@ -443,6 +452,11 @@ def c19(tier):
     # every encoding: readers of different files of the same kind, interleaved seeks across all blocks
     for fmt, ch in ([x for x in allf if x[1] == 1] if tier == "quick" else allf):
         gen_env.c19_codec_pairs(S, fmt, ch, RATE, rng, k=2 if tier == "quick" else 3, steps=12 if tier == "quick" else 30)
+    # per-handle settings stay per handle (every setter command on another handle of the same and of another encoding)
+    setB = [0x10006, 0x20006, 0x30006, 0x40006, 0x10007, 0x180007, 0x10002, 0x20003, 0x30010] if tier == "quick" else [f for f, c in allf if c == 1]
+    for fb in setB:
+        for fa in (fb, 0x10006 if scen.sub(fb) != 6 else 0x10002):
+            gen_env.c19_settings(S, fb, fa, RATE, rng)
     # earlier library use = parsing arbitrary (mutated) files of the same codec: reader undisturbed, later writer byte identical
     od = os.path.join(vlib.ROOT, "out", "C19", tier)
     os.makedirs(od, exist_ok=True)
